@@ -56,7 +56,7 @@ def configs(tier):
     if tier == "thorough":
         c += [
             cfgd("single: csr 3x3 all 512 patterns, remaining calls", ["csr_33"], ops=["clone", "copy", "format", "poke"]),
-            cfgd("single: csr 4x4 patterns with 5..6 entries", ["csr_44"], ops=PATOPS),
+            cfgd("single: csr 4x4, all 4368 patterns with 5 entries: convert, transpose, permute", ["csr_44"], ops=["conv", "transp", "permute"], workers=2),
             cfgd("single: cscr 3x3", ["cscr_33"]),
             cfgd("single: banded 4x4, 4x2, 1x4", ["banded_44"]),
             cfgd("single: bcsr 3x3 blocks", ["bcsr_33"], ops=PATOPS),
